@@ -1049,6 +1049,7 @@ refine_body_stmt :
     | default_stmt
     | config_stmt 
     | mandatory_stmt
+    | presence_stmt
     | must_stmt
     | max_elements
     | min_elements
